@@ -58,6 +58,7 @@ func (o Op) String() string {
 // bytes delivered and the ground truth (for read-back by the caller) and whether the
 // scenario ran to the end.
 func RunWriter(t *tr.Writer, sc WScenario) ([]byte, *Truth, bool) {
+	libBase := LibBaseline(Marker + ".")
 	truth := &Truth{Seed: sc.Seed}
 	sink := &Sink{T: t, Truth: truth, FaultAt: sc.FaultAt, Partial: sc.Partial}
 	if sc.Jitter {
@@ -142,7 +143,7 @@ func RunWriter(t *tr.Writer, sc WScenario) ([]byte, *Truth, bool) {
 		ret["haseof"] = []bool{he1 && herr1 == nil, he2 && herr2 == nil}
 		if o.K == "C" {
 			closedOnce = true
-			nlib, frames := LibGoroutines(Marker + ".")
+			nlib, frames := LibGoroutinesAbove(Marker+".", libBase)
 			ret["leak"] = nlib
 			if nlib > 0 {
 				ret["frames"] = frames
